@@ -446,7 +446,25 @@ class Z3Dom:
         """elementary function as an uninterpreted symbol (assumption A-ELEM)"""
         if isinstance(x, Cx):
             raise Unsupported("%s of complex" % fname)
-        return R(self.uf(fname)(_real(zconst(x))))
+        t = _real(zconst(x))
+        a = self.uf(fname)(t)
+        # range facts (A-ELEM), handed to a query only when the application occurs in it
+        if fname in ("cos", "sin", "sinc"):
+            self.add_fact(z3.And(a >= -1, a <= 1), trigger=a)
+            if fname == "sin":
+                hp = z3.Real("pi") / 2
+                self.pi()
+                self.add_fact(z3.Implies(z3.And(t > -hp, t < hp), z3.And(a > -1, a < 1)), trigger=a)
+        elif fname == "tanh":
+            self.add_fact(z3.And(a > -1, a < 1), trigger=a)
+        elif fname == "exp":
+            self.add_fact(a > 0, trigger=a)
+        elif fname == "arcsin":
+            hp = z3.Real("pi") / 2
+            self.pi()
+            self.add_fact(z3.Implies(z3.And(t >= -1, t <= 1), z3.And(a >= -hp, a <= hp)), trigger=a)
+            self.add_fact(z3.Implies(z3.And(t > -1, t < 1), z3.And(a > -hp, a < hp)), trigger=a)
+        return R(a)
 
     def pi(self):
         p = z3.Real("pi")
